@@ -24,6 +24,7 @@ LEVEL_TEXT = (
     "refusals are explored by generated histories biased towards documented-invalid arguments. Complete over fault "
     "positions per generated (tree, operation); a search over trees and operations."
 )
+TECHNIQUE = 'fault injection: every k-th invocation of every user callback; refusal histories biased to invalid arguments'
 RULE = (
     "part refusals: op histories biased to documented-invalid arguments (uniqueness collisions by every route, "
     "`before` node that is not a child of the target, move into the own branch / across trees / in typed trees, "
